@@ -36,7 +36,7 @@ pub struct EaseOfMovement<M: MovingAverageConstructor = MA> {
 	pub ma: M,
 	/// Differencial period size. Default is `1`.
 	///
-	/// Range in \[`1`; [`PeriodType::MAX`](crate::core::PeriodType)\].
+	/// Range in \[`1`; [`PeriodType::MAX`](crate::core::PeriodType)\).
 	pub period2: PeriodType,
 }
 
@@ -61,7 +61,10 @@ impl<M: MovingAverageConstructor> IndicatorConfig for EaseOfMovement<M> {
 	}
 
 	fn validate(&self) -> bool {
-		self.ma.ma_period() > 1 && self.ma.ma_period() < PeriodType::MAX && self.period2 >= 1
+		self.ma.ma_period() > 1
+			&& self.ma.ma_period() < PeriodType::MAX
+			&& self.period2 >= 1
+			&& self.period2 < PeriodType::MAX
 	}
 
 	fn set(&mut self, name: &str, value: String) -> Result<(), Error> {
